@@ -27,7 +27,7 @@ def fold_workflow(f):
     receive a view of the input data -- or None when the method leaves the folding language."""
     from ..fold import Folder, Obj, Opaque, Raised, Refuse, Sym
 
-    out = {"a": [], "c": [], "views": []}
+    out = {"a": [], "c": [], "views": [], "undecided": []}
     NT = 3
 
     def run(kind, ow, series=False, has=False, scalar=True):
@@ -49,7 +49,10 @@ def fold_workflow(f):
             r, tr, inp = run("array", ow)
             want = "self.correct_array(<opaque ndarray IN>)" if ow else "self.correct_array(IN.copy())"
             if repr(r) != want:
-                out["a"].append(f"array input, overwrite={ow}: returns {r!r}, documented {want}")
+                if not ow and repr(r) == "self.correct_array(<opaque ndarray IN>)":
+                    out["a"].append("array input, overwrite=False: the correction is applied to the caller's array itself (no copy)")
+                else:
+                    out["undecided"].append(f"array input, overwrite={ow}: returns {r!r}")
         for ow in (True, False):
             for series, has, scalar in ((False, False, True), (False, True, True), (True, True, True), (True, True, False), (True, False, True), (True, False, False)):
                 r, tr, inp = run("image", ow, series, has, scalar)
@@ -69,18 +72,26 @@ def fold_workflow(f):
                     if not ret_ok:
                         out["a"].append(f"{case}: returns {r!r}, not the input object")
                     if not upd:
-                        out["a"].append(f"{case}: update_metadata(correct_metadata(metadata())) is not called on the input")
+                        out["undecided"].append(f"{case}: update_metadata(correct_metadata(metadata())) not seen")
                 else:
                     if not (isinstance(r, Sym) and r.fn == "type(image)" and len(r.args) == 1 and set(r.kw) == {"**"}):
                         return None
                     got = repr(r.args[0])
                     if repr(r.kw["**"]) != "image.metadata()" or "image.metadata().update(self.correct_metadata(image.metadata()))" not in tr:
-                        out["a"].append(f"{case}: the copy is built with metadata {r.kw['**']!r} (updates applied: {[t for t in tr if '.update(' in t]})")
+                        if repr(r.kw["**"]) == "image.metadata()" and not any(".update(" in t or "correct_metadata" in t for t in tr):
+                            out["a"].append(f"{case}: the copy is built from the input's metadata without the declared updates")
+                        else:
+                            out["undecided"].append(f"{case}: metadata {r.kw['**']!r}")
                     if repr(inp.fields.get("img")) != "<opaque arr DATA>" or any(t.startswith("image.update_metadata(") for t in tr):
                         out["a"].append(f"{case}: the input image is modified although overwrite is False")
                     out["views"].extend(t for t in tr if t.startswith("self.correct_array") and ("(DATA[" in t or "(<opaque arr DATA>" in t) and t not in out["views"])
                 if got not in wants:
-                    out["c" if series and not has else "a"].append(f"{case}: corrected data is {got}, documented {wants[0]}")
+                    if not ow and got in [w.replace("DATA.copy()", "<opaque arr DATA>") for w in wants]:
+                        out["a"].append(f"{case}: the correction is applied to the input's own data (no copy): {got}")
+                    elif (series and not has) and got.startswith("np.stack(") and got.count("self.correct_array(") == NT and "axis=<opaque int SD>" not in got:
+                        out["c"].append(f"{case}: slices are stacked along another axis than space_dim: {got[-60:]}")
+                    else:
+                        out["undecided"].append(f"{case}: corrected data is {got}")
     except (Refuse, Raised):
         return None
     return out
@@ -105,6 +116,8 @@ def rule_a(ctx):
     recognised = len(top) == 1 and norm(top[0].test) == f"isinstance({p}, np.ndarray)" and top[0].orelse and isinstance(top[0].orelse[0], ast.If) \
         and norm(top[0].orelse[0].test) == f"isinstance({p}, darsia.Image)"
     sem = fold_workflow(f)
+    if sem is not None and sem["undecided"] and not (sem["a"] or sem["c"]):
+        sem = None  # data / metadata terms this rule cannot compare with the documented ones: left to the syntactic rules
     if sem is not None and not recognised:
         # restructured workflow: decided by the symbolic fold over all input cases
         ctx.ob(R, f.qname, "workflow folded over input kind x overwrite x series x correct_array_series x scalar agrees with the documented one", not sem["a"], "; ".join(sem["a"][:3]), f.node, evidence=True)
